@@ -42,6 +42,7 @@ var (
 	coreAddr    = ethCommon2.HexToAddress("0x00000000000000000000000000000000000c04e1")
 	foreignAddr = ethCommon2.HexToAddress("0x00000000000000000000000000000000000f04e1")
 	senderAddr  = ethCommon2.HexToAddress("0x000000000000000000000000000000000005e4d3")
+	senderAddr2 = ethCommon2.HexToAddress("0x00000000000000000000000000000000000b0b02")
 	msgTopic    = ethCommon2.HexToHash("0xcd7b525350dfac7e06deb9b3a8f19ceb75cf6cd2914cd0b2d7bf9d9a3d9babff")
 	otherTopic  = crypto.Keccak256Hash([]byte("SomethingElse(address,uint16)"))
 	parsedABI   gethAbi.ABI
@@ -112,6 +113,8 @@ type evmLog struct {
 	target   uint16
 	payload  []byte
 	good     bool // core contract + published topic
+	sender   ethCommon2.Address
+	idx      int // position in the transaction
 }
 
 type evmTx struct {
@@ -251,7 +254,7 @@ func (l *evmLog) pack(tx *evmTx, b *evmBlock, idx int, removed bool) map[string]
 		panic(err)
 	}
 	return map[string]interface{}{
-		"address": l.addr, "topics": []ethCommon2.Hash{l.topic0, ethCommon2.BytesToHash(senderAddr.Bytes())}, "data": hexutil.Bytes(data),
+		"address": l.addr, "topics": []ethCommon2.Hash{l.topic0, ethCommon2.BytesToHash(l.sender.Bytes())}, "data": hexutil.Bytes(data),
 		"blockNumber": hexutil.Uint64(b.number), "transactionHash": tx.hash, "transactionIndex": hexutil.Uint(0), "blockHash": b.hash,
 		"logIndex": hexutil.Uint(idx), "removed": removed,
 	}
@@ -659,7 +662,8 @@ func (s *evmSim) onHandoff(pub *common.MessagePublication) {
 	}
 	var lg *evmLog
 	for _, l := range tx.logs {
-		if l.sequence == pub.Sequence && l.nonce == pub.Nonce && string(l.payload) == string(pub.Payload) && uint16(pub.TargetChain) == l.target && pub.ConsistencyLevel == l.level {
+		if l.sequence == pub.Sequence && l.nonce == pub.Nonce && string(l.payload) == string(pub.Payload) && uint16(pub.TargetChain) == l.target && pub.ConsistencyLevel == l.level &&
+			pub.EmitterAddress == PadAddress(l.sender) {
 			if lg == nil || l.good {
 				lg = l
 			}
@@ -710,9 +714,9 @@ func (s *evmSim) onHandoff(pub *common.MessagePublication) {
 	}
 	// exactly once per (log, block it is mined in, watcher incarnation): a transaction that is
 	// re-mined after a reorg deeper than its confirmation depth is a new observation
-	k := fmt.Sprintf("%s/%d/%s/inc%d", path, lg.sequence, tx.block.hash.Hex(), s.inc)
+	k := fmt.Sprintf("%s/%d/%s/inc%d", path, lg.idx, tx.block.hash.Hex(), s.inc)
 	tx.handoffs[k]++
-	tx.handoffs[path+"/"+tx.block.hash.Hex()]++
+	tx.handoffs[fmt.Sprintf("%s/%d/%s", path, lg.idx, tx.block.hash.Hex())]++
 	if path == "poll" && tx.handoffs[k] > 1 {
 		s.violate("forwarded-twice", "log seq=%d in block %d handed over %d times by one watcher incarnation", lg.sequence, tx.block.number, tx.handoffs[k])
 	}
@@ -848,7 +852,7 @@ func (s *evmSim) addTx(kind, level, variant int) *evmTx {
 		for i := range pay {
 			pay[i] = byte(i + int(sq))
 		}
-		return &evmLog{addr: addr, topic0: topic, sequence: sq, level: uint8(level), nonce: uint32(7000 + sq), target: 255, payload: pay, good: addr == coreAddr && topic == msgTopic}
+		return &evmLog{addr: addr, topic0: topic, sequence: sq, level: uint8(level), nonce: uint32(7000 + sq), target: 255, payload: pay, good: addr == coreAddr && topic == msgTopic, sender: senderAddr}
 	}
 	switch kind {
 	case 0:
@@ -866,6 +870,17 @@ func (s *evmSim) addTx(kind, level, variant int) *evmTx {
 	case 4:
 		tx.logs = append(tx.logs, mk(foreignAddr, msgTopic, seq+500), mk(coreAddr, msgTopic, seq), mk(coreAddr, otherTopic, seq+900))
 		s.stats.Fault("mixed-logs-in-one-transaction")
+	case 5:
+		// two emitters publish through the core contract in one transaction; sequences count per
+		// emitter, so both messages may carry the same number
+		a, b := mk(coreAddr, msgTopic, seq), mk(coreAddr, msgTopic, seq)
+		b.sender = senderAddr2
+		b.payload[0] ^= 0xff
+		tx.logs = append(tx.logs, a, b)
+		s.stats.Fault("two-emitters-same-sequence-in-one-transaction")
+	}
+	for i, l := range tx.logs {
+		l.idx = i
 	}
 	s.txs = append(s.txs, tx)
 	return tx
@@ -875,7 +890,7 @@ func (s *evmSim) runStep(st simkit.Step, obsvReqC chan *gossipv1.ObservationRequ
 	switch st.Op {
 	case "log":
 		s.mu.Lock()
-		tx := s.addTx(int(st.A)%5, int(st.B)%64, int(st.C))
+		tx := s.addTx(int(st.A)%6, int(st.B)%64, int(st.C))
 		b := s.newBlock(uint64(len(s.chain)))
 		s.chain = append(s.chain, b)
 		b.txs = append(b.txs, tx)
@@ -1105,30 +1120,28 @@ func (s *evmSim) settleRounds(tag string, jump int) bool {
 		if tx.deliveredInc != s.inc || tx.deliveredBlock == nil {
 			continue // the running incarnation never saw this log
 		}
-		good := false
-		var lg *evmLog
-		for _, l := range tx.logs {
-			if l.good {
-				good, lg = true, l
-			}
-		}
 		stays := tx.block == tx.deliveredBlock && s.canonical(tx.block) && tx.status == 1
-		n := 0
-		if tx.block != nil {
-			n = tx.handoffs["poll/"+tx.block.hash.Hex()]
-		}
-		switch {
-		case good && stays && n == 0 && tx.abandonLegit:
-			s.stats.Probe("abandoned-after-failing-for-the-whole-window")
-		case good && stays && n == 0:
-			s.violate("final-message-not-forwarded", "log seq=%d (level %d) in block %d stayed in its block, the chain head is %d and the watcher has seen head %d, but the message was never handed over (settle part %q, head jump %d)",
-				lg.sequence, lg.level, tx.block.number, s.head(), s.maxHeadServed, tag, jump)
-			return false
-		case good && stays && n > 1:
-			s.violate("forwarded-twice", "log seq=%d handed over %d times", lg.sequence, n)
-			return false
-		case good && stays:
-			s.stats.Probe("final-message-forwarded-once")
+		for _, lg := range tx.logs {
+			if !lg.good {
+				continue
+			}
+			n := 0
+			if tx.block != nil {
+				n = tx.handoffs[fmt.Sprintf("poll/%d/%s", lg.idx, tx.block.hash.Hex())]
+			}
+			switch {
+			case stays && n == 0 && tx.abandonLegit:
+				s.stats.Probe("abandoned-after-failing-for-the-whole-window")
+			case stays && n == 0:
+				s.violate("final-message-not-forwarded", "log #%d seq=%d (level %d) in block %d stayed in its block, the chain head is %d and the watcher has seen head %d, but the message was never handed over (settle part %q, head jump %d)",
+					lg.idx, lg.sequence, lg.level, tx.block.number, s.head(), s.maxHeadServed, tag, jump)
+				return false
+			case stays && n > 1:
+				s.violate("forwarded-twice", "log #%d seq=%d handed over %d times", lg.idx, lg.sequence, n)
+				return false
+			case stays:
+				s.stats.Probe("final-message-forwarded-once")
+			}
 		}
 	}
 	return true
@@ -1149,7 +1162,7 @@ func (evmHarness) Gen(seed uint64, prop, tier string) *simkit.Program {
 	for i := 0; i < n; i++ {
 		switch r.Pick(8, 6, 6, 3, 3, 3, 1, 3) {
 		case 0:
-			add("log", int64(r.Pick(8, 2, 2, 2, 2)), level(), int64(r.Intn(64)))
+			add("log", int64(r.Pick(8, 2, 2, 2, 2, 2)), level(), int64(r.Intn(64)))
 		case 1:
 			d := int64(r.Pick(5, 3, 1, 1)) // 0..3 -> small, medium, big
 			nb := []int64{int64(r.Range(1, 3)), int64(r.Range(4, 15)), int64(r.Range(30, 59)), int64(r.Range(61, 150))}[d]
